@@ -233,7 +233,10 @@ def _log_counter(counter, num_reserved, uint_maxval, base, rand_nums, rand_ptr, 
         Current pointer location into `rand_nums`
     """
     one = uint16(1)
-    for i in range(value):
+    # `value` is unsigned; range() would treat values >= 2**63 as negative
+    i = uint64(0)
+    while i < value:
+        i += uint64(1)
         # If the counter is at the maximum value, nothing to do
         if counter >= uint_maxval:
             return counter, rand_ptr
